@@ -97,6 +97,12 @@ func (c *Closer) Close() error {
 
 type otherPanic struct{ n int }
 
+// an error whose cause chain ends in nil at once (github.com/pkg/errors' Cause() convention)
+type causelessError struct{}
+
+func (causelessError) Error() string { return "harness: error that wraps nothing" }
+func (causelessError) Cause() error  { return nil }
+
 // Register installs the instrumented functions on a compiler. The functions
 // find their session in the context so that one compiled program can be run
 // many times.
@@ -204,6 +210,10 @@ func Register(c *compiler.Compiler) {
 	reg("PANIC_O", func(ctx context.Context, args ...core.Value) (core.Value, error) {
 		enter(ctx, "PANIC_O", args)
 		panic(otherPanic{1})
+	})
+	reg("PANIC_C", func(ctx context.Context, args ...core.Value) (core.Value, error) {
+		enter(ctx, "PANIC_C", args)
+		panic(causelessError{})
 	})
 	reg("PANIC_N", func(ctx context.Context, args ...core.Value) (core.Value, error) {
 		enter(ctx, "PANIC_N", args)
